@@ -1,0 +1,35 @@
+//go:build verif
+
+package mavl
+
+// Verification hooks (build tag "verif" only; the production binary does not contain this file).
+//
+// The package keeps process-wide state: the highest committed height (maxBlockHeight, lazily loaded
+// from the database on first use), the pruning flags (quit is set by ClosePrune and never cleared,
+// pruningState, secLvlPruningH) and the optional node caches (memTree, tkCloseCache). A harness that
+// opens several independent stores one after another in one process needs the start-up values back,
+// otherwise a later store takes an earlier store's maximum height for its own and every prune after
+// the first ClosePrune silently does nothing.
+
+// VerifWaitPrune blocks until every background pruning goroutine started by Tree.Save has returned.
+func VerifWaitPrune() {
+	wg.Wait()
+}
+
+// VerifResetGlobals waits for background pruning to finish and puts the package-level state back to
+// the values it has at process start.
+func VerifResetGlobals() {
+	wg.Wait()
+	quit = false
+	setPruning(pruningStateEnd)
+	secLvlPruningH = 0
+	heightMtx.Lock()
+	maxBlockHeight = 0
+	heightMtx.Unlock()
+	ReleaseGlobalMem()
+}
+
+// VerifIsPruning reports whether a pruning run is marked as in progress.
+func VerifIsPruning() bool {
+	return isPruning()
+}
